@@ -450,3 +450,27 @@ func finalOpStreams() []Stream {
 	})
 	return finalOpList
 }
+
+// libPrefixStreams: the library's own classic writer on every prefix of a short text, in the three
+// termination modes. How many of the final bytes the range decoder still needs after the last
+// decoded bit differs from stream to stream (it depends on the last normalisation); a family of
+// several hundred streams covers every such alignment.
+var (
+	libPrefixOnce sync.Once
+	libPrefixList []Stream
+)
+
+func libPrefixStreams() []Stream {
+	libPrefixOnce.Do(func() {
+		text := textBytes(300, 125)
+		for n := 0; n <= len(text); n++ {
+			for _, m := range []struct {
+				name string
+				cfg  LZCfg
+			}{{"eos", LZCfg{DictCap: 4096, EOS: true}}, {"size", LZCfg{DictCap: 4096, SizeInHeader: true, Size: int64(n)}}, {"size+eos", LZCfg{DictCap: 4096, SizeInHeader: true, Size: int64(n), EOS: true}}} {
+				libPrefixList = append(libPrefixList, Stream{Name: fmt.Sprintf("libprefix-%d-lzma-%s", n, m.name), Fmt: "lzma", Data: mustLibLZMA(m.cfg, text[:n]), Plain: text[:n], Writer: "lib"})
+			}
+		}
+	})
+	return libPrefixList
+}
